@@ -331,7 +331,15 @@ def explore_edits(r, rnd, ndocs):
             for i in range(len(fixed_docs) + ndocs):
                 text, expect = fixed_docs[i] if i < len(fixed_docs) else gen_edit_doc(rnd)
                 p = os.path.join(base, "test_e%d.py" % i)
-                diags = srv.open(p, text)
+                if i >= len(fixed_docs) and rnd.random() < 0.35:
+                    # an earlier version of the document bound the fixture names at module level (an import that was
+                    # deleted since): what the server says about the CURRENT text must not remember it
+                    prev = "from helpers_mod import %s\n" % ", ".join(SIG_FIX) + text
+                    srv.open(p, prev)
+                    diags = srv.change(p, text, 2)
+                    stats["docs_with_deleted_module_level_names"] += 1
+                else:
+                    diags = srv.open(p, text)
                 und = [d for d in diags if d.get("code") == "undeclared-fixture"]
                 tree = ast.parse(text)
                 fn_at = {}
@@ -342,6 +350,15 @@ def explore_edits(r, rnd, ndocs):
                 for n, f, sh in expect:
                     shapes[n] = sh
                     shapes.setdefault(n + "#0", sh)
+                warned = set()
+                for d in und:
+                    ln_ = d["range"]["start"]["line"]
+                    warned.add((fn_at.get(ln_, "").split("#")[0], text.split("\n")[ln_][d["range"]["start"]["character"]:d["range"]["end"]["character"]]))
+                for n, f, sh in expect:
+                    if (n.split("#")[0], f) not in warned:
+                        bad.append({"kind": "diagnostics", "why": "no undeclared-fixture warning for a visible fixture used in a body without being declared",
+                                    "function": n, "fixture": f, "shape": sh, "text": text, "published": [x.get("message") for x in diags][:6]})
+                        break
                 for d in und:
                     fname = fn_at.get(d["range"]["start"]["line"])
                     fixture = text.split("\n")[d["range"]["start"]["line"]][d["range"]["start"]["character"]:d["range"]["end"]["character"]]
